@@ -1221,6 +1221,10 @@ static void DecodeWORD(Word Index) {
         OK = True;
         do {
             HVal16 = EvalStrIntExpression(&ArgStr[z], Int16, &OK);
+            if (OK && SetMaxCodeLen(CodeLen + 2)) {
+                WrError(ErrNum_CodeOverflow);
+                OK = False;
+            }
             if (OK) {
                 WAsmCode[CodeLen >> 1] = HVal16;
                 CodeLen += 2;
